@@ -47,3 +47,24 @@ func VerifC20Crop() {
 		verifAssert(strings.HasSuffix(r, "...") && strings.HasPrefix(s, r[:len(r)-3]), "a cropped field is a prefix of the original plus the truncation mark")
 	}
 }
+
+// Escape-heavy error causes: the message is k plain letters followed by n characters that
+// encoding/json escapes with six bytes each ('<'), k and n symbolic; the document the runtime
+// sends contains them raw (one byte each). The accepted cause must be at most 64 KiB.
+func VerifC20ErrorCauseEscape() {
+	k := verifNondetInt("plain letters in the message")
+	n := verifNondetInt("html-escaped characters in the message")
+	verifAssume(k >= 0 && k <= 400000 && n >= 0 && n <= 400000)
+	msg := strings.Repeat("a", k) + strings.Repeat("<", n)
+	doc := []byte(`{"message":"` + msg + `","working_directory":"/var/task"}`)
+	out, err := ValidatedErrorCauseJSON(doc)
+	if err != nil {
+		verifReach("dropped")
+		return
+	}
+	verifReach("accepted")
+	if len(doc) <= MaxErrorCauseSizeBytes {
+		verifReach("small-input")
+	}
+	verifAssert(len(out) <= MaxErrorCauseSizeBytes, "an accepted error cause is at most 64 KiB")
+}
